@@ -311,15 +311,16 @@ def rule_forwarding(ctx: Ctx, repo: Repo) -> None:
 def run(ctx: Ctx, repo: Repo, tier: str) -> None:
     ctx.trust(*TRUSTED)
     ctx.trust("pathlib: a.relative_to(b) raises ValueError unless a is b or below b; Path.resolve() makes the path absolute and resolves symlinks")
-    rule_filter_gate(ctx, repo)
-    rule_main_gate(ctx, repo)
-    rule_default_filter(ctx, repo)
-    rule_forwarding(ctx, repo)
+    ctx.attempt(rule_filter_gate, ctx, repo)
+    ctx.attempt(rule_main_gate, ctx, repo)
+    ctx.attempt(rule_default_filter, ctx, repo)
+    ctx.attempt(rule_forwarding, ctx, repo)
     # the filter is asked about the frame's code object, the logger receives the *function* looked up for that frame: if
     # the lookup can return a function whose code is not that very object (a twin with equal code in another file), a
     # rejected function is recorded in place of the accepted one.  C02's attribution rules are that necessary condition.
     from . import c02 as _c02
     from .memo_rules import tracer_attribution_history
     ctx.note("R-C02.4 below is C02's attribution rule, run here as a necessary condition of C17 (the recorded function is the one whose code the filter judged)")
-    _c02.rule_attribution(ctx, repo)
-    tracer_attribution_history(ctx, repo, "R-C02.4")
+    ctx.attempt(_c02.rule_attribution, ctx, repo)
+    ctx.attempt(tracer_attribution_history, ctx, repo, "R-C02.4")
+    ctx.settle()
